@@ -96,6 +96,7 @@ def main():
     backends = set()
     checker_cmds = []
     bounded_units = []
+    bounded_run = bounded_ok = 0
 
     try:
         # ---- frame checks (syntactic side conditions the contracts rely on) ----
@@ -154,13 +155,18 @@ def main():
             undecided += kr["undecided"]
             checker_cmds += kr["cmds"]
             for h in kr["harnesses"]:
-                obligations += 1
+                if h["class"] == "bounded":
+                    # a bounded stand-in is never counted as a discharged proof obligation
+                    bounded_run += 1
+                    bounded_ok += 1 if h["status"] == "ok" else 0
+                else:
+                    obligations += 1
                 functions.append({"id": h["harness"], "engine": "kani", "targets": h.get("targets"), "class": h["class"], "bound": h.get("bound"), "time_s": h.get("time_s"), "checks": h.get("n_checks")})
                 solver_ms += int(1000 * (h.get("time_s") or 0))
                 if h["class"] == "bounded":
                     bounded_units.append("%s (bound: %s)" % (h["harness"], h.get("bound")))
                 if h["status"] == "ok":
-                    discharged += 1
+                    discharged += 0 if h["class"] == "bounded" else 1
                     clause_samples.append("kani: %s [%s] %s" % (h["harness"], h["class"], h.get("doc", "")))
                 elif h["status"] == "failed":
                     f = {"obligation": "kani/%s[%s]" % (h["harness"], h.get("failed_check", "?")), "site_key": h.get("failed_check", ""), "kind": "kani",
@@ -230,6 +236,9 @@ def main():
             "rule": "evaluations = CBMC property checks evaluated by the Kani harnesses of this run + contract clauses and vacuity canaries checked by Verus; "
                     "a case is one Kani harness with at least one reachable check, or one spliced contract clause (requires/ensures/invariant/decreases) -- all distinct by construction",
             "bounded_stand_ins_not_counted_as_proved": bounded_units,
+            "bounded_stand_ins": {"run": bounded_run, "passed": bounded_ok, "note": "Kani harnesses with a stated bound; NOT included in obligations/discharged"},
+            "units": [{"unit": r["unit"], "reused_from_cache": bool(r.get("cache_hit")), "verify_wall_s": round(r.get("verify_wall_s") or 0, 1), "smt_ms": r.get("smt_ms"),
+                       "functions_verified": r.get("verified"), "slowest": sorted([(f["function"], f["ms"]) for f in r.get("function_breakdown", [])], key=lambda x: -x[1])[:3]} for r in unit_results],
             "not_decided": cfg.get("not_decided", []),
             "known_findings_hit": [k["what"] for k, _ in known_hits],
             "unit_results_reused_from_cache": [r["unit"] for r in unit_results if r.get("cache_hit")],
@@ -246,7 +255,7 @@ def main():
     os.makedirs(evdir, exist_ok=True)
     with open(os.path.join(evdir, "%s.json" % prop), "w") as f:
         json.dump(ev, f, indent=1)
-    print("%s: %d/%d obligations discharged, %d violations, %d known findings, %d undecided, %.1fs" % (prop, discharged, obligations, len(violations), len(known_hits), len(undecided), wall))
+    print("%s: %d/%d obligations discharged%s, %d violations, %d known findings, %d undecided, %.1fs" % (prop, discharged, obligations, (" (+%d/%d bounded stand-ins passed)" % (bounded_ok, bounded_run)) if bounded_run else "", len(violations), len(known_hits), len(undecided), wall))
     return rc
 
 
